@@ -378,11 +378,28 @@ class MonWorld:
         before = self.zk.nodes.get(path)
         apimod.context = types.SimpleNamespace(GLOBAL=types.SimpleNamespace(
             zk=types.SimpleNamespace(conn=self.zk), cell='cell'))
-        if route == 'raw':
-            masterapi.update_appmonitor(self.zk, name, rsrc.get('count'),
-                                        rsrc.get('policy'))
-        else:
-            _unwrapped(getattr(_API, route))(name, dict(rsrc))
+        try:
+            if route == 'raw':
+                masterapi.update_appmonitor(self.zk, name, rsrc.get('count'),
+                                            rsrc.get('policy'))
+            else:
+                _unwrapped(getattr(_API, route))(name, dict(rsrc))
+        except (HarnessGlue, GlueCrashed):
+            raise
+        except Exception as exc:  # pylint: disable=broad-except
+            import traceback
+            site = None
+            for fr in traceback.extract_tb(exc.__traceback__):
+                if '/treadmill/' in fr.filename:
+                    site = '%s:%s' % (fr.filename.rsplit('/', 1)[1], fr.name)
+            if site is None:
+                raise
+            # a legal configuration request fails in the service: the target
+            # the user asked for never reaches the monitor
+            self._v('configuration-request-raised', site,
+                    request=[route, name, dict(rsrc)],
+                    error='%s: %s' % (type(exc).__name__, str(exc)[:160]))
+            return
         after = self.zk.nodes.get(path)
         self.defs[name] = (count, policy)
         self.policy[name] = policy
@@ -712,7 +729,7 @@ class MonWorld:
             r = None if r is None else (units(r['B'], r['c']),
                                         self.L - logical(r['t']))
             out.append((name, d, self.policy.get(name), c, s, r,
-                        len(self.inst[name]), name in self.last_waited,
+                        len(self.inst[name]), name in (self.last_waited or ()),
                         self._mismatch(name)))
         extra_susp = sorted(set(self.state['suspended']) -
                             set(self.cfg['names']))
